@@ -175,6 +175,10 @@ class Verifier(Engine):
                 return self.construct_any(st, o, args, kwargs)
             if inspect.isclass(o):
                 return self.construct(st, o, args, kwargs)
+            import re as _re
+            if o is _re.match and len(args) >= 2 and isinstance(args[0], VStr) and args[0].lit() is not None:
+                # re.match(<literal pattern>, s): the match model of that pattern, compiled here
+                return self.re_match(st, VPy(_re.compile(args[0].lit())), args[1:])
             ext = '%s.%s' % (getattr(o, '__module__', ''), getattr(o, '__name__', ''))
             if inspect.ismethod(o):
                 ext = '%s.%s' % (type(o.__self__).__module__, o.__qualname__)
